@@ -17,6 +17,7 @@ def main(raw, out):
     cases = []         # list of [events]
     threads = []       # set of threads per instance
     orphans = 0
+    gens, waker = {}, {}
     for l in open(raw):
         try:
             d = json.loads(l)
@@ -31,7 +32,15 @@ def main(raw, out):
             orphans += 1
             continue
         i = inst[c]
-        cases[i].append({"e": d["e"], "a": d["a"], "b": d["b"], "d": d["d"]})
+        b = d["b"]
+        if d["e"] == "poll":
+            # wakers are told apart by their address; a poll's waker gets the next small number
+            gens[c] = gens.get(c, 0) + 1
+            waker[(c, b)] = gens[c]
+            b = gens[c]
+        elif d["e"] == "wake":
+            b = waker.get((c, b), 0)
+        cases[i].append({"e": d["e"], "a": d["a"], "b": b, "d": d["d"]})
         threads[i].add(d["th"])
     kept = multi = big = 0
     kinds = collections.Counter()
